@@ -39,14 +39,20 @@ int run(const Args& a, Recorder& rec) {
             { Op13 o; o.kind = 4; o.q = q; o.repr = "lookup+prepare(" + qs + ")"; A.push_back(o); } }     // prepared on demand, left for the next bulk computation
         // replay a history on a fresh container; returns abstract state key; evaluates invariants if own
         auto hrepr = [&](const std::vector<int>& h) { std::string s = mdl.first + ":"; for (size_t i = 0; i < h.size(); ++i) { s += (i ? ";" : ""); s += A[h[i]].repr; } if (h.empty()) s += "<new>"; return s; };
-        auto replay = [&](const std::vector<int>& h, bool own, std::string& key) -> bool {
+        auto replay = [&](const std::vector<int>& h, int own, std::string& key) -> bool {     // own: 0 = state key only, 1 = checks on the last call only, 2 = all invariants
             TwoParticleGFContainer X(*P.IC, *P.S, *P.H, *P.rho, *P.Ops); std::string hr = hrepr(h); bool last_bulk_ok = false; bool alive = true;
             for (size_t step = 0; step < h.size() && alive; ++step) { const Op13& o = A[h[step]]; last_bulk_ok = false;
                 try {
                     if (o.kind == 0) { std::set<IndexCombination4> s; for (auto& q : o.set) s.insert(IndexCombination4(q[0], q[1], q[2], q[3])); X.prepareAll(s); }
                     else if (o.kind == 1) { X.computeAll(false, std::vector<FT>(), P.comm, o.split); last_bulk_ok = true; }
-                    else if (o.kind == 2) { X(IndexCombination4(o.q[0], o.q[1], o.q[2], o.q[3])); }
-                    else { TwoParticleGF& e = X(IndexCombination4(o.q[0], o.q[1], o.q[2], o.q[3])); e.prepare(); if (o.kind == 3) e.compute(); }
+                    else { IndexCombination4 key(o.q[0], o.q[1], o.q[2], o.q[3]);
+                        // both lookup overloads; the reference returned must be the entry the container now files under the requested key
+                        ElementWithPermFreq<TwoParticleGF>& r = (step % 2) ? X(key) : X(ParticleIndex(o.q[0]), ParticleIndex(o.q[1]), ParticleIndex(o.q[2]), ParticleIndex(o.q[3]));
+                        if (own && step + 1 == h.size()) { rec.evaluations++; auto it = X.ElementsMap.find(key);
+                            if (it == X.ElementsMap.end()) rec.violation("C13:lookup:not-filed", "after a lookup the container does not list the requested quadruple", hr);
+                            else if (&it->second != &r) rec.violation("C13:lookup:returns-other-element", "a lookup returns something else than the entry filed under the requested quadruple", hr);
+                            if (!X.isInContainer(key)) rec.violation("C13:lookup:isInContainer", "isInContainer(q) is false right after q was looked up", hr); }
+                        if (o.kind != 2) { TwoParticleGF& e = r; e.prepare(); if (o.kind == 3) e.compute(); } }
                 } catch (ComputableObject::exStatusMismatch&) { alive = false; if (own) rec.counters["history_rejected_status_mismatch"]++; }
                   catch (std::exception& e) { alive = false; if (own) rec.violation("C13:call-throws:" + o.repr.substr(0, o.repr.find('(')), std::string("a container call throws: ") + e.what(), hr); }
             }
@@ -58,7 +64,7 @@ int run(const Args& a, Recorder& rec) {
             ks << "|"; for (auto it = X.NonTrivialElements.begin(); it != X.NonTrivialElements.end(); ++it) { const TwoParticleGF* e = it->second.get(); ks << it->first.Index1 << it->first.Index2 << it->first.Index3 << it->first.Index4 << ":s" << const_cast<TwoParticleGF*>(e)->getStatus() << ":e" << (cls.count(e) ? cls[e] : -1) << ";"; }
             ks << (last_bulk_ok ? "|after-bulk" : "|");      // the 'evaluable after a bulk computation' clause looks at the last call: it is part of the state
             key = ks.str();
-            if (!own) return true;
+            if (own < 2) return true;
             // invariants
             for (auto it = X.ElementsMap.begin(); it != X.ElementsMap.end(); ++it) {
                 Q4 q = { (int)it->first.Index1, (int)it->first.Index2, (int)it->first.Index3, (int)it->first.Index4 }; TwoParticleGF& e = static_cast<TwoParticleGF&>(it->second);
@@ -74,18 +80,19 @@ int run(const Args& a, Recorder& rec) {
             return true;
         };
         // BFS
-        std::unordered_set<std::string> seen; std::vector<std::vector<int> > frontier(1), next; { std::string k; replay(frontier[0], false, k); seen.insert(k); }
+        std::unordered_set<std::string> seen; std::vector<std::vector<int> > frontier(1), next; { std::string k; replay(frontier[0], 0, k); seen.insert(k); }
         long nstates = 1;
         for (int d = 0; d <= maxdepth; ++d) {
             next.clear();
             for (auto& h : frontier) {
                 bool own = (idx++ % a.nshards) == a.shard; std::string hr = hrepr(h);
-                if (own && a.want(hr)) { marker("C13 " + hr); rec.states++; if (h.size() >= 2) rec.nontrivial++; if (idx % 401 == 0) rec.sample(hr); std::string k; replay(h, true, k); }
+                if (own && a.want(hr)) { marker("C13 " + hr); rec.states++; if (h.size() >= 2) rec.nontrivial++; if (idx % 401 == 0) rec.sample(hr); std::string k; replay(h, 2, k); }
                 if (d == maxdepth) continue;
                 for (size_t o = 0; o < A.size(); ++o) { std::vector<int> h2 = h; h2.push_back((int)o); rec.enum_transitions++; std::string k;
-                    if (!replay(h2, false, k)) { // rejected history: evaluate its violation (if any) once, by its owner
-                        if ((idx % a.nshards) == a.shard) { std::string kk; replay(h2, true, kk); } continue; }
-                    if (seen.insert(k).second) { next.push_back(h2); nstates++; } }
+                    if (!replay(h2, 0, k)) { // rejected history: evaluate its violation (if any) once, by its owner
+                        if ((idx % a.nshards) == a.shard) { std::string kk; replay(h2, 2, kk); } continue; }
+                    if (seen.insert(k).second) { next.push_back(h2); nstates++; }
+                    else if (A[o].kind >= 2 && (idx % a.nshards) == a.shard) { std::string kk; replay(h2, 1, kk); } }      // a lookup that leaves the state unchanged: what it returned is still checked
             }
             frontier.swap(next);
             if (clk.s() > a.deadline) { rec.exhaustive = false; rec.note("deadline at depth " + std::to_string(d)); break; }
